@@ -2,7 +2,7 @@ SPEC = dict(
     id="C45",
     bin="c45",
     cases_quick=1600,
-    cases_thorough=60000,
+    cases_thorough=30000,
     level="proof",
     technique="Coq model of Glv composition (init / insert / remove / config / balance), GlvMarketConfig::validate_balance and the GLV pricing of deposits and withdrawals (crates/model/src/glv.rs + the pricing part of ops/glv.rs) on top of C01's usd<->token conversions; theorems by induction over histories and by integer arithmetic + differential correspondence with the real Glv methods on a real Glv with real Market accounts, the real validate_market_token_balance, and the real get_glv_value_for_market / get_market_token_amount_for_glv_value / pool_value on markets implementing the real model traits",
     text="Every market in a GLV carries the GLV's long and short token for every history of management operations; after a deposit the market's GLV balance is within the configured maximum amount and value; a deposit immediately followed by a withdrawal of the minted GLV tokens never returns more market tokens, provided the deposit-side minimised pool value does not exceed the withdrawal-side maximised pool value (the complement is the listed known finding).",
